@@ -158,9 +158,9 @@ Proj:
         Store
         Audit
 `,
-	"mixins": c07Src5Model,
+	"mixins":   c07Src5Model,
 	"restonly": "Shop [version=\"1.0\"]:\n    !type T:\n        fa <: int\n        fb <: string?\n        fc <: sequence of Other\n        fd <: Other?\n        fe <: bool\n    !type Other:\n        oid <: int\n        note <: string?\n        more <: date\n    !enum Kind:\n        A: 1\n        B: 2\n        C: 3\n    /items/{id <: int}:\n        GET ?limit=int?&must=string&third=bool:\n            return ok <: T\n            return 404 <: Other\n        POST (body <: T [~body], trace <: string [~header], span <: string [~header]):\n            return 200 <: sequence of T\n    /others:\n        GET:\n            return ok <: sequence of Other\n",
-	"attrs":  "P [a=\"1\", b=\"2\", ~t1, ~t2]:\n    @c = \"3\"\n    @d = [\"x\", \"y\"]\n    E1 [x=\"1\", y=\"2\"]:\n        Q <- Ev\n    E2:\n        ...\n    E3:\n        ...\n    !enum En:\n        A: 1\n        B: 2\n        C: 3\nQ:\n    <-> Ev:\n        ...\nSub:\n    Q -> Ev:\n        P <- E2\n    Q -> Ev2:\n        P <- E3\n",
+	"attrs":    "P [a=\"1\", b=\"2\", ~t1, ~t2]:\n    @c = \"3\"\n    @d = [\"x\", \"y\"]\n    E1 [x=\"1\", y=\"2\"]:\n        Q <- Ev\n    E2:\n        ...\n    E3:\n        ...\n    !enum En:\n        A: 1\n        B: 2\n        C: 3\nQ:\n    <-> Ev:\n        ...\nSub:\n    Q -> Ev:\n        P <- E2\n    Q -> Ev2:\n        P <- E3\n",
 }
 
 const c07Src5Model = "MA:\n    -|> MB\n    Own:\n        MB <- Sh\nMB:\n    -|> MC\n    Sh:\n        ...\nMC:\n    Deep:\n        ...\n    !type T%2EU:\n        f <: T\n    !type T%2EV:\n        g <: int\n    !type T:\n        h <: int\nMD:\n    .. * <- *:\n        Own2 [~c1]\n        MB <- Sh [k=\"v\"]\n    Own2:\n        MB <- Sh\n"
